@@ -10,6 +10,20 @@ NOTE = ("Trusted: Coq 8.16.1 kernel (no axioms: every property theorem prints 'C
         "The theorems are about the hand-written Gallina model; the model is tied to /repo on every run by the table "
         "translator and by the differential correspondence run, which bounds what has been exercised.")
 CLAIMED = {
+    "C15": dict(
+        text="Theorem C15_document_end_resets: in the parser model every successful DocumentEnd step empties the anchor table, empties the "
+             "tag-handle table unless keep_tags, keeps the state stack and lands in a document-start state (nothing but the anchor id "
+             "counter crosses a document boundary). Scanner-level locality and the composition theorem are not yet proved: accepted "
+             "streams of the C01 space are concatenated 2-4 at a time with document-end marker lines and must parse to the parts' "
+             "documents with anchors renumbered (two back-ends); cross-document alias probes; model vs implementation on the concatenations.",
+        ref="DESIGN.md 5/C15", tech="Rocq proof (parser reset at document end) + differential correspondence on concatenated streams; scanner locality partial"),
+    "C20": dict(
+        text="16 theorems over a model of derive(Hash)/Eq, OrderedFloat, hash_str_as_yaml_string and the raw-entry lookups, for ALL nodes, "
+             "mappings, probe strings and every hasher finish function: equal nodes have equal hash streams (incl. borrowed/owned/marked "
+             "copies); as_mapping_get, contains_mapping_key, Index/IndexMut and explicit-node lookup agree, succeed iff some key is a "
+             "resolved string equal to k (first such entry), panic exactly on absence; integer indexing rules. Tie: a recording Hasher "
+             "captures the real write_* call sequences and lookup results on 4 node types and compares them literally with the extracted model.",
+        ref="DESIGN.md 5/C20", tech="Rocq proof (eq => equal hash stream; lookup agreement, all mappings) + recording-hasher correspondence + oracle on implementation"),
     "C01": dict(
         text="Theorems C01_parser_never_panics / C01_step_never_panics: the pull parser model never panics for ANY token stream "
              "(consequence of the C02 stack invariant). The scanner families (lookahead discipline, queue invariants, termination) "
